@@ -13,6 +13,65 @@ from .repo import AnalysisError
 from .vec import (MASKED, NONE_EL, OOB, Backing, El, Masked, Sc, Vec, Vec2, m_and, m_conc, m_formula, m_ite, m_or,
                   norm_index)
 
+PLAIN = (int, str, bytes, bool, type(None), Fr, float)
+
+
+def is_plain(x):
+    return isinstance(x, PLAIN) or (isinstance(x, (tuple, frozenset)) and all(is_plain(y) for y in x))
+
+
+COMPARING = {'index', 'remove', 'count', 'sort', 'most_common', 'elements', 'subtract'}
+CONTAINER_MUTATORS = {'append', 'appendleft', 'extend', 'extendleft', 'pop', 'popleft', 'popitem', 'insert', 'remove', 'sort', 'reverse', 'clear', 'update', 'setdefault', 'add', 'discard',
+                      'rotate', 'move_to_end', 'subtract', 'difference_update', 'intersection_update', 'symmetric_difference_update', '__setitem__', '__delitem__'}
+
+
+def real_container_method(M, interp, obj, name, node):
+    """A method of a real Python container (the interpreter keeps lists, dicts, sets, deques, OrderedDicts, Counters as themselves) that has no
+    row of its own: the container's own method is called, provided everything it hashes or compares is a plain constant (abstract array
+    elements do not compare like their concrete counterparts)."""
+    hashed = list(obj.keys()) if isinstance(obj, dict) else (list(obj) if isinstance(obj, (set, frozenset)) else [])
+    if not all(is_plain(k) for k in hashed):
+        return None
+    if name in COMPARING and not all(is_plain(x) for x in (obj.values() if isinstance(obj, dict) else obj)):
+        return None
+
+    def call(it, a, k, n):
+        if k.get('key') is not None or any(callable(x) and not isinstance(x, type) for x in a):
+            raise AnalysisError(f'{type(obj).__name__}.{name} with a key function not modelled', n)
+        if isinstance(obj, (dict, set, frozenset)) or name in COMPARING:
+            for x in a:
+                items = list(x) if isinstance(x, (list, tuple, set, frozenset, dict)) else [x]
+                if name not in ('update', 'setdefault', 'get', 'pop') and not all(is_plain(y) for y in items):
+                    raise AnalysisError(f'{type(obj).__name__}.{name} with abstract values not modelled', n)
+        if name in CONTAINER_MUTATORS:
+            M.mutation(it, obj, f'.{name}()', n)
+        try:
+            r = getattr(obj, name)(*a, **k)
+        except (ValueError, TypeError, KeyError, IndexError) as e:
+            raise AbsRaise(ExcVal(type(e).__name__, (str(e),)), n)
+        if isinstance(r, (type({}.items()), type({}.keys()), type({}.values()))):
+            return list(r)
+        return r
+    return PyCallable(call, f'{type(obj).__name__}.{name}')
+
+
+def plain_for_format(M, interp, x, node):
+    """a value as str.format / an f-string sees it: exact rationals that stand for Python ints / floats become those; anything abstract is rendered
+    by to_str (its text cannot matter to a flag)"""
+    if isinstance(x, bool) or x is None or isinstance(x, (int, str)):
+        return x
+    if isinstance(x, Fr):
+        return float(x)
+    if isinstance(x, float):
+        return x
+    if isinstance(x, Sc) and x.concrete():
+        v = x.value()
+        return int(v) if x.dtype in ('i8', 'u1') and Fr(v).denominator == 1 else float(v)
+    if isinstance(x, (list, tuple)) and all(isinstance(y, (int, str, bool, type(None), Fr, float)) for y in x):
+        return type(x)(plain_for_format(M, interp, y, node) for y in x) if not hasattr(x, '_fields') else x
+    return M.to_str(interp, x, node)
+
+
 def pure_str_method(obj, name):
     """any method of str / bytes is a pure function of concrete values: evaluated for real"""
     def call(it, a, k, n):
@@ -112,6 +171,10 @@ def getattr_lib(M, interp, obj, name, node):
         if isinstance(obj, pytype) and not isinstance(obj, bool):
             if name in names:
                 return ModelMethod(obj, name)
+    if isinstance(obj, (list, dict, set, frozenset, collections.deque)) and not name.startswith('_') and hasattr(type(obj), name):
+        real = real_container_method(M, interp, obj, name, node)
+        if real is not None:
+            return real
     if isinstance(obj, tuple) and hasattr(obj, '_fields'):
         if name in obj._fields:
             return getattr(obj, name)
@@ -167,6 +230,13 @@ def getattr_lib(M, interp, obj, name, node):
     h = getattr(obj, 'abs_getattr', None)
     if h is not None:
         return h(interp, name, node)
+    if type(obj).__name__ == 'EnumInt':
+        if name in ('name', '_name_'):
+            return obj.enum_name
+        if name in ('value', '_value_'):
+            return int(obj)
+        if name == '__class__':
+            return obj.enum_cls
     if obj is None or isinstance(obj, (int, float, Fr, bool, str, list, tuple, dict, set)):
         if isinstance(obj, (int, Fr, float)) and not isinstance(obj, bool) and name in ('astype',):
             # numpy float scalars produced by python arithmetic on numpy scalars
@@ -476,7 +546,11 @@ def register(M):
                 raise AbsRaise(ExcVal('TypeError', ('sequence item: expected str instance',)), node)
             return obj.join(items)
         if isinstance(obj, str) and name == 'format':
-            return obj
+            conv = lambda x: plain_for_format(M, interp, x, node)
+            try:
+                return obj.format(*[conv(a) for a in args], **{k: conv(v) for k, v in kw.items()})
+            except (IndexError, KeyError, ValueError, TypeError) as e:
+                raise AbsRaise(ExcVal(type(e).__name__, (str(e),)), node)
         if isinstance(obj, list) and name == 'pop':
             try:
                 return obj.pop(*[concrete_int(M, a, node) for a in args])
